@@ -18,7 +18,7 @@ import (
 )
 
 func init() {
-	register(&Rule{ID: "P-JSON-DECODE", Props: []string{"C16", "C04", "C05", "C08"}, Floor: 4,
+	register(&Rule{ID: "P-JSON-DECODE", Props: []string{"C16", "C04", "C05", "C08", "C01"}, Floor: 4,
 		Doc: "by interpretation of the JSON literal parser with encoding/json modelled: on every path that returns a node and no error, the node's value is the result of a successful decode of exactly the literal's text with every \\` replaced by ` (or the constant the path compared that text with); a value decoded by a Decoder was decoded after UseNumber and the path saw Decoder.Token report io.EOF afterwards (nothing follows the value); json.Unmarshal is given only *string and *json.Number targets",
 		Run: rulePJSONDecode})
 }
